@@ -23,6 +23,7 @@ type World struct {
 	contracts map[string]*ContractSet      // by import path
 	std       *ContractSet                 // assumed contracts for dependencies (/verif/contracts/*.spec)
 	funcDecls map[*types.Func]*ast.FuncDecl
+	globalInit map[*types.Var]ast.Expr
 	loadSecs  float64
 }
 
@@ -40,7 +41,7 @@ func goEnv() []string {
 }
 
 func loadWorld(dirs []string, verifDir string) (*World, error) {
-	w := &World{pkgs: map[string]*packages.Package{}, byName: map[string]*packages.Package{}, contracts: map[string]*ContractSet{}, funcDecls: map[*types.Func]*ast.FuncDecl{}}
+	w := &World{pkgs: map[string]*packages.Package{}, byName: map[string]*packages.Package{}, contracts: map[string]*ContractSet{}, funcDecls: map[*types.Func]*ast.FuncDecl{}, globalInit: map[*types.Var]ast.Expr{}}
 	cfg := &packages.Config{
 		Mode:       packages.NeedName | packages.NeedFiles | packages.NeedSyntax | packages.NeedTypes | packages.NeedTypesInfo | packages.NeedImports | packages.NeedDeps,
 		Dir:        repoDir,
@@ -105,6 +106,17 @@ func loadWorld(dirs []string, verifDir string) (*World, error) {
 				if fd, ok := d.(*ast.FuncDecl); ok {
 					if obj, ok := p.TypesInfo.Defs[fd.Name].(*types.Func); ok {
 						w.funcDecls[obj] = fd
+					}
+				}
+				if gd, ok := d.(*ast.GenDecl); ok {
+					for _, sp := range gd.Specs {
+						if vs, ok := sp.(*ast.ValueSpec); ok && len(vs.Values) == len(vs.Names) {
+							for i, nm := range vs.Names {
+								if v, ok := p.TypesInfo.Defs[nm].(*types.Var); ok {
+									w.globalInit[v] = vs.Values[i]
+								}
+							}
+						}
 					}
 				}
 			}
@@ -185,4 +197,21 @@ func (w *World) contractFor(from *packages.Package, fn *types.Func) (*Contract, 
 		return ct, from, w.std
 	}
 	return nil, nil, nil
+}
+
+// isImmutable: the package's contract declares the global immutable (frame-checked syntactically).
+func (w *World) isImmutable(v *types.Var) bool {
+	if v.Pkg() == nil {
+		return false
+	}
+	cs := w.contracts[v.Pkg().Path()]
+	if cs == nil {
+		return false
+	}
+	for _, d := range cs.Immutable {
+		if d.Name == v.Name() {
+			return true
+		}
+	}
+	return false
 }
